@@ -526,6 +526,18 @@ def oracle_c29(ctx, budget_s):
         structure = case.desc["block"]["k"] != "cross"
         if ks & {"ExactlyKInARow", "Sequential", "MinimumTrials"} or structure:
             known = "F6"
+        fsm = OD._fmap(case.desc)
+        want_refuse = None
+        if case.desc["block"]["k"] in ("cross", "multicross") and r[0] in ("exc", "ok"):
+            ncross = 1 if case.desc["block"]["k"] == "cross" else len(case.desc["block"]["crossings"])
+            wins = [fsm[i]["window"]["kind"] for i in D.block_design_ids(case.desc["block"]) if fsm[i]["window"]]
+            want_refuse = ctx.drv().ask({"op": "conform", "m": "smgen_refuses", "n": ncross, "kinds": sorted(ks), "windows": wins})["ok"]
+            refused = r[0] == "exc" and r[1] == "Exception" and ("nsupported" in r[2] or "not supported" in r[2])
+            arity = any(fsm[i]["window"] and fsm[i]["window"]["kind"] == "transition" and len(fsm[i]["window"]["deps"]) > 1
+                        for i in D.block_design_ids(case.desc["block"]))
+            ctx.count("I11s.refusal")
+            if refused != want_refuse and not (refused and arity):
+                ctx.corr_break("I11s.smgen_refusal", {"crossings": ncross, "kinds": sorted(ks), "windows": wins}, refused, want_refuse)
         if r[0] == "exc":
             if r[1] == "Exception" and ("nsupported" in r[2] or "not supported" in r[2]):
                 ctx.count("C29.refused")
